@@ -657,8 +657,23 @@ SavedProg(kind) ==
 SavedCase(kind) ==
   [BaseCase EXCEPT !.id = <<"saved", kind, 0, 0, 0, 0, 0>>, !.fam = "calls", !.vm = "nodata", !.prog = SavedProg(kind)]
 
+\* a function entry reached without a call - by a tail jump (k = 1) or by falling through (k = 2);
+\* the only call that names it as a target sits in dead code.  The code from that entry on runs
+\* with the frame size of THAT function: its callee g reports the distance (32, not main's 16).
+EntryCase(k) ==
+  [BaseCase EXCEPT !.id = <<"entry", k, 0, 0, 0, 0, 0>>, !.fam = "calls", !.vm = "nodata", !.calc = TRUE,
+     !.fsz = [dflt |-> 48, tab |-> IF k = 1 THEN << <<0, 16>>, <<5, 32>>, <<8, 64>> >> ELSE << <<0, 16>>, <<2, 32>>, <<7, 64>> >>],
+     !.prog = Flat(IF k = 1
+                   THEN << Mov64R(1, 10), JaI(3), CallxI(2), ExitI, ExitI,            \* main: tail jump to f (5); dead callx f
+                           Mov64R(1, 10), CallxI(1), ExitI,                           \* f (5): calls g (8)
+                           Mov64R(0, 1), Sub64R(0, 10), ExitI >>                      \* g (8)
+                   ELSE << Mov64I(2, 0), Mov64I(3, 0),                                \* main falls into f (2)
+                           Mov64R(1, 10), CallxI(3), ExitI,                           \* f (2): calls g (7)
+                           CallxI(-4), ExitI,                                         \* dead code: callx f
+                           Mov64R(0, 1), Sub64R(0, 10), ExitI >>)]
+
 CallsCases(u) ==
-  { LocalVsHelper(k) : k \in {1, 2, 6} } \cup { SavedCase(k) : k \in 1..4 } \cup
+  { LocalVsHelper(k) : k \in {1, 2, 6} } \cup { SavedCase(k) : k \in 1..4 } \cup WithJitDev({ EntryCase(k) : k \in {1, 2} }) \cup
   WithJitDev( { HelperNotAnEntry } \cup { TreeCase(ti) : ti \in 0..Len(TreeSizes) } \cup { ChainCase(t[1], t[2], t[3]) : t \in {x \in (0..9) \X {0, 1} \X (1..7) : Keep(x[1] + 3*x[2] + 5*x[3])} }
               \cup { RecCase(N, ci) : N \in 0..9, ci \in {1, 2, 3} } )
 
